@@ -4011,7 +4011,7 @@ func (t *fnTr) assign(x *ast.AssignStmt, next func() string) string {
 							fl := t.newLocal(nil, l.Name+"_"+f.Name(), fk)
 							lv.fields[f.Name()] = fl
 							lv.forder = append(lv.forder, f.Name())
-							out += "let " + fl.name + " := " + fnZero(fk) + " in "
+							out += "let " + fl.name + " : " + fnCoqType(fk) + " := " + fnZero(fk) + " in "
 						}
 						return out + "\n  " + next()
 					}
